@@ -23,6 +23,18 @@ CLAIMED = {
         note=TRUST + " Assumed: cast.ToFloat64E/ToSliceE and structpb.Value.AsInterface contracts (written from their sources), "
              "reflect.DeepEqual named deq, jsonpath.TravelerPathLookup named pathLookup (JSONPath library not verified).",
         technique="contract-based deductive verification: WP/VC generation over go/ssa + SMT (z3/cvc5)"),
+    "C16": dict(
+        level="proof",
+        text="For every key family of the embedded graph store the real builder and parser functions are proved inverse on "
+             "NUL-free components, injective, pairwise disjoint between families, and every list/element prefix is proved to "
+             "capture exactly the keys of one graph / element (code lemmas executed from the functions' SSA); the validators "
+             "(validate, ValidateGraphName, ValidateFieldName, Vertex.Validate, Edge.Validate) are proved to accept only "
+             "NUL-free non-blank identifiers, which is the precondition of those lemmas. Holds for all strings.",
+        ref="§5 C16",
+        note=TRUST + " Assumed: models of bytes.Join/Split/HasPrefix and strings.IndexByte/ContainsAny (axioms in spec/keys.smt2, "
+             "validated by a bounded differential test); structpb property values (nesting, numeric extremes) are library behaviour "
+             "and not decided; the label-vs-'label' collision in the index document is residue.",
+        technique="contract-based deductive verification: code lemmas + function contracts, VCs over go/ssa, SMT (z3/cvc5)"),
     "C11": dict(
         level="other",
         text="Partial: JobMatch is proved to accept exactly the stored jobs of two or more steps whose checksums are a prefix of "
